@@ -200,8 +200,10 @@ fn feed(stream: &Stream, cuts: &[usize], bufsize: usize) -> Result<End, (String,
                         return Err(("decoded-too-late".into(), format!("MoreBytesNeeded although the chunk completes packet {}", pk)));
                     }
                     let seen_after = seen_before + data.len();
+                    // the statement fixes the count only "once the header has been seen"; what is
+                    // reported before that (None today) is left open
                     let expect = if seen_after >= 20 { Some(plen - seen_after) } else { None };
-                    if missing != expect {
+                    if seen_after >= 20 && missing != expect {
                         return Err((
                             "missing-bytes-count".into(),
                             format!("MoreBytesNeeded({:?}) but exact remainder is {:?} (packet len {}, seen {})", missing, expect, plen, seen_after),
